@@ -137,12 +137,22 @@ def qid(k):
     return f"q{k}"
 
 
-def make_register(nq, spacing=6.0):
+def reg_ids(dev):
+    """Qubit ids by position.  Default q1, q2, ...; with dev["intids"] integers that are NOT their own
+    position (1, 2, ..., 0) -- 0 is a falsy id, and an id used as an index lands on another atom."""
+    nq = dev["nq"]
+    if dev.get("intids"):
+        return [k % nq for k in range(1, nq + 1)]
+    return [qid(k) for k in range(1, nq + 1)]
+
+
+def make_register(nq, spacing=6.0, ids=None):
     """q1, q2, ... on a line, deliberately NOT listed in ascending coordinate order (q1 in the
     middle, q2 leftmost, ...), so that anything that confuses the order of the ids with the
     canonical order of the coordinates shows."""
     xs = [1, 0, 2, 4, 3, 5, 7, 6][:nq]
-    return pulser.Register({qid(k): (spacing * xs[k - 1], 0.0) for k in range(1, nq + 1)})
+    ids = ids or [qid(k) for k in range(1, nq + 1)]
+    return pulser.Register({ids[k - 1]: (spacing * xs[k - 1], 0.0) for k in range(1, nq + 1)})
 
 
 def mask_to_ids(mask, nq_max=8):
